@@ -1,8 +1,8 @@
 /-
-Helper lemmas of `Props/Translated.lean` that are about one translated function each (they name the generated
+Helper lemmas of `Props/Translated/Pn.lean` (`get_full_packet_number`) (they name the generated
 result records, hence the import of the generated file).
 -/
-import TLX.Gen.Translated
+import TLX.Gen.Translated.Pn
 import TLX.Lemmas.PyRt
 import TLX.Quic.PktNum
 namespace TLX.Lemmas.Translated
